@@ -137,6 +137,8 @@ struct Shared<S: Strat> {
     /// identities that an operation may have leaked because an injected destructor panic unwound
     /// out of it (finding F5)
     f5: Mutex<Vec<u64>>,
+    /// simulated pointee type per container
+    ctags: Vec<u8>,
     hs: Mutex<HStats>,
     loaded_ids: Mutex<Vec<u64>>,
     discarded_ids: Mutex<Vec<u64>>,
@@ -340,8 +342,10 @@ impl<S: Strat> Local<S> {
                 sh.hs(|h| h.null_stored += 1);
                 None
             }
-            Val::Handle(i) if !self.handles.is_empty() => {
-                let h = self.handles[sel(*i, self.handles.len())].clone();
+            Val::Handle(i) if self.handles.iter().any(|h| h.ty() == sh.ctags[c]) => {
+                // only values of the container's own pointee type can be offered to it
+                let same: Vec<usize> = (0..self.handles.len()).filter(|&k| self.handles[k].ty() == sh.ctags[c]).collect();
+                let h = self.handles[same[sel(*i, same.len())]].clone();
                 if h.stored_in(c) {
                     sh.hs(|s| s.restore_same += 1);
                 } else if h.obj().prov.load(Ordering::Relaxed) != 0 {
@@ -349,7 +353,7 @@ impl<S: Strat> Local<S> {
                 }
                 Some(h)
             }
-            _ => Some(VArc::new()),
+            _ => Some(VArc::new_t(sh.ctags[c])),
         };
         if let Some(a) = &r {
             a.mark_stored(c);
@@ -534,7 +538,10 @@ impl<S: Strat> Local<S> {
                     None => return,
                 }
             }
-            Cur::Handle(i) if !self.handles.is_empty() => Some(self.handles[sel(*i, self.handles.len())].clone()),
+            Cur::Handle(i) if self.handles.iter().any(|h| h.ty() == sh.ctags[c]) => {
+                let same: Vec<usize> = (0..self.handles.len()).filter(|&k| self.handles[k].ty() == sh.ctags[c]).collect();
+                Some(self.handles[same[sel(*i, same.len())]].clone())
+            }
             _ => None,
         };
         if rt::aborted() {
@@ -1032,7 +1039,7 @@ impl<S: Strat> Local<S> {
             }
             Op::StorePanicky(c) => {
                 let c = *c as usize;
-                let n = VArc::new();
+                let n = VArc::new_t(sh.ctags[c]);
                 n.set_panic_on_drop();
                 n.mark_stored(c);
                 set_tag(n.id());
@@ -1349,7 +1356,7 @@ fn run_case_s<S: Strat>(case: &Case, trace: bool) -> Outcome {
     let mut conts = Vec::new();
     let mut init_ids = Vec::new();
     for c in 0..p.ncont as usize {
-        let v: V = if p.init_null[c] { None } else { Some(VArc::new()) };
+        let v: V = if p.init_null[c] { None } else { Some(VArc::new_t(p.ctype.get(c).copied().unwrap_or(0))) };
         if let Some(a) = &v {
             a.mark_stored(c);
         }
@@ -1367,6 +1374,7 @@ fn run_case_s<S: Strat>(case: &Case, trace: bool) -> Outcome {
         inv: (0..nt).map(|_| Mutex::new((Vec::new(), Vec::new()))).collect(),
         stop: AtomicBool::new(false),
         f5: Mutex::new(Vec::new()),
+        ctags: (0..p.ncont as usize).map(|c| p.ctype.get(c).copied().unwrap_or(0)).collect(),
         hs: Mutex::new(HStats::default()),
         loaded_ids: Mutex::new(Vec::new()),
         discarded_ids: Mutex::new(Vec::new()),
@@ -1376,9 +1384,13 @@ fn run_case_s<S: Strat>(case: &Case, trace: bool) -> Outcome {
     });
     {
         let mut st = rt::rt().m.lock().unwrap();
+        varc::ctag_clear();
         for c in 0..p.ncont as usize {
             let a = sh.caddr(c);
             st.register(a, storage_word(a), Role::Storage, init_ids[c]);
+            if !p.ctype.is_empty() {
+                varc::ctag_register(a, sh.ctags[c]);
+            }
         }
         let sh2 = sh.clone();
         *QUIESCE_CTX.lock().unwrap() = Some(Box::new(move |st| quiesce_check(&sh2, st)));
